@@ -130,7 +130,8 @@ func c15Refs() []string { return []string{sha256hex("reference-1"), sha256hex("r
 
 func c15Events(fx map[string]sigFixture) []Ev {
 	refs := c15Refs()
-	evs := []Ev{{Name: "block+1s", Block: time.Second}}
+	// thirty years later (beyond the certificates' own validity): a stored record verifies as before
+	evs := []Ev{{Name: "block+1s", Block: time.Second}, {Name: "block+30y", Block: 30 * 365 * 24 * time.Hour}}
 	for ri, r := range refs {
 		for _, v := range []struct{ n, v string }{{"L1", "ipfs://link-one"}, {"L2", "ipfs://link-two"}, {"empty", ""}, {"L3:", "urn:c4e:doc:"}, {"L4", "urn:c4e:doc"}} {
 			r, v := r, v
